@@ -151,6 +151,31 @@ func c06Configs(tier string) []vmc.Cfg {
 			}
 		}
 	}
+	// 5. corrective puts with a peer that fails during the search: 4 peers, K=3, one of them fails its request (or its
+	// dial); the correction goes to the K nearest *non-failed* peers that did not return the best value
+	for lf := 0; lf < 4; lf++ {
+		for _, fb := range []string{sim.BReqFail, sim.BDialFail} {
+			if tier != "thorough" && fb == sim.BDialFail {
+				continue
+			}
+			for m := 0; m < 81; m++ {
+				recs := make([]string, 4)
+				mm := m
+				for i := range recs {
+					recs[i] = []string{"best", "older", "none"}[mm%3]
+					mm /= 3
+				}
+				if recs[lf] != "none" {
+					continue // what a failing peer would have answered does not matter
+				}
+				lb := honest(4)
+				lb[lf] = fb
+				for _, a := range []int{3, 1} {
+					add(c06cfg{op: "corrective", n: 4, k: 3, a: a, lookupBeh: lb, putBeh: make([]string, 4), addrMask: 1, filter: "none", recs: recs})
+				}
+			}
+		}
+	}
 	return out
 }
 
